@@ -321,6 +321,17 @@ func (d *Driver) check(id string) int {
 	if v, ok := eng.bounds["deadline-s"]; ok {
 		eng.deadline = time.Duration(v) * time.Second
 	}
+	if cx := os.Getenv("GOSYM_CONCRETE"); cx != "" {
+		var c cexOut
+		b, err := os.ReadFile(cx)
+		if err == nil && json.Unmarshal(b, &c) == nil {
+			eng.concrete = map[string][]CexInput{}
+			for _, in := range c.Inputs {
+				eng.concrete[in.Name] = append(eng.concrete[in.Name], in)
+			}
+			d.only = c.Harness
+		}
+	}
 	slv, err := NewSolver("z3", eng.solverTO, "")
 	if err != nil {
 		fmt.Fprintln(os.Stderr, "solver:", err)
